@@ -105,6 +105,20 @@ def rt_processes(seed, hash_seeds, ambients):
         diff = [k for k, r in runs.items() if r.get(comp) != ref[comp]]
         out.append(dict(name='rt:%s:identical-results-for-the-same-seed-across-processes(hash-seeds,ambient-generator-states)' % comp, ok=same,
                         witness=dict(reference=ref_key, differing=diff[:4], ref=json.dumps(ref[comp])[:400], other=json.dumps(runs[diff[0]].get(comp))[:400] if diff else None)))
+        def holds(x, path=''):
+            bad = []
+            if isinstance(x, dict):
+                for k_, v_ in x.items():
+                    if str(k_).startswith('holds:'):
+                        if v_ is not True:
+                            bad.append(path + '/' + str(k_))
+                    else:
+                        bad += holds(v_, path + '/' + str(k_))
+            return bad
+        bad = sorted({b_ for r in runs.values() for b_ in holds(r.get(comp))})
+        if any('holds:' in json.dumps(r.get(comp)) for r in runs.values()):
+            out.append(dict(name='rt:%s:sequence-clauses(several-derived-objects,parent-used-first,explicit-generator)-hold-in-every-process' % comp, ok=not bad,
+                            witness=dict(component=comp), detail='; '.join(bad)))
         unt = all(r.get(comp + '::ambient-untouched') is True for r in runs.values())
         out.append(dict(name='rt:%s:global-random/numpy/torch-generators-are-not-disturbed' % comp, ok=unt, witness=dict(component=comp)))
     return out
